@@ -55,6 +55,8 @@ func (e *Engine) encodeFunction(fn *ssa.Function) *FuncResult {
 		}
 		return x
 	}
+	// axioms of the contract file (trusted facts about uninterpreted functions): asserted when the function's
+	// encoding mentions one of the symbols they constrain (decided after encoding, see below)
 	if fc != nil && len(fc.clauses("callpre")) > 0 {
 		st.h[c.cellVar("CB_called", tyBool)] = False
 	}
@@ -90,6 +92,31 @@ func (e *Engine) encodeFunction(fn *ssa.Function) *FuncResult {
 		}()
 		fr.encodeBody(True, st)
 	}()
+	// trusted axioms: only those whose uninterpreted symbols occur in this function's encoding
+	for _, ax := range e.cf.Axioms {
+		relevant := false
+		for _, sym := range []string{"ext_path_filepath.Join_2"} {
+			if c.declared[sym] && strings.Contains(ax.Text, "pathJoin") {
+				relevant = true
+			}
+		}
+		if !relevant {
+			continue
+		}
+		x := &EvalCtx{c: c, fr: fr, st: &State{h: map[string]Term{}}, old: &State{h: map[string]Term{}}, vars: map[string]TV{}}
+		if g, ok := x.evalBool(ax.Expr); ok {
+			// inserted as a global fact (valid in every state: it mentions no heap)
+			c.asserts = append([]Term{g}, c.asserts...)
+			c.assertBlk = append([]*ssa.BasicBlock{nil}, c.assertBlk...)
+			for _, o := range c.obls {
+				o.NAsserts++
+			}
+			for i := range c.sortTotal {
+				c.sortTotal[i].nAsserts++
+			}
+			c.trusted["axiom "+ax.Label] = ax.Text
+		}
+	}
 	// merge returns
 	var edges []*edge
 	for _, r := range fr.rets {
